@@ -114,6 +114,11 @@ func (cropOW *CropOverwrite) OverwriteCropParameters(cropFile string, g *GlobalV
 				stageIdx := stage - 1
 				g.TSUM[stageIdx] = value
 			}
+			// the total temperature sum is derived when the file is read: derive it again from the overridden sums
+			l.tendsum = 0
+			for i := 0; i < l.NRENTW; i++ {
+				l.tendsum = l.tendsum + g.TSUM[i]
+			}
 		} else if key == "BAS" {
 			for stage, value := range stages {
 				stageIdx := stage - 1
